@@ -34,4 +34,8 @@ def run(repo, tier) -> Result:
     check_binding(res, repo, prop="C03", raw_required=False)  # C03 only needs "its own copy" (no candlestick type in its quantifier)
     res.rule("R-INTERVAL", floor=6)
     res.rule("R-VN-MERGE", floor=6)
+    # "volume = sum of volumes of the candles that fall in it": the converters hand every slot over unchanged
+    from .c19 import check_converters
+
+    check_converters("C03", res, repo, rule="R-INPUT")
     return res
